@@ -89,6 +89,9 @@ static inline int vs_close(int fd)
 }
 static inline struct vs_pmap *vs_pmap_find(struct vs_pmap *m, int fd) { __CPROVER_assert(fd == g_fd, "peer table looked up by the peer's descriptor"); return m->present ? m : (struct vs_pmap *)0; }
 static inline size_t vs_pmap_erase(struct vs_pmap *m, int fd) { __CPROVER_assert(fd == g_fd, "peer table entry of the peer's descriptor erased"); size_t r = m->present; m->present = 0; return r; }
+/* erase(iterator) / emplace / operator[] spellings of the same table operations */
+static inline size_t vs_pmap_erase_it(struct vs_pmap *m, struct vs_pmap *it) { __CPROVER_assert(it == m, "erase(iterator): the iterator of the peer's entry"); size_t r = m->present; m->present = 0; return r; }
+#define vs_pmap_erase_any(m, x) _Generic((x), struct vs_pmap *: vs_pmap_erase_it, default: vs_pmap_erase)(m, x)
 static inline void vs_pmap_insert(struct vs_pmap *m, int fd) { __CPROVER_assert(fd == g_fd, "peer entered under its descriptor"); m->present = 1; }
 static inline size_t vs_wmap1_erase(struct vs_wmap1 *m, int fd) { __CPROVER_assert(fd == g_fd, "write queue of the peer's descriptor erased"); __CPROVER_assert(g_lock_held, "toWrite is touched under toWriteLock"); size_t r = m->present; m->present = 0; return r; }
 static inline void vs_wmap1_emplace(struct vs_wmap1 *m, int fd) { __CPROVER_assert(fd == g_fd, "write queue created under the peer's descriptor"); __CPROVER_assert(g_lock_held, "toWrite is touched under toWriteLock"); m->present = 1; }
@@ -118,7 +121,8 @@ STUBS = {
     'operator==|%s,%s' % (PITB, PITB): {'expr': '(($0) == ($1))'},
     'operator->|' + PIT: {'expr': '($0)'},
     'field:std::pair<int, std::shared_ptr<Pistache::Tcp::Peer>>::first': '(g_fd)',
-    PM + '::erase': 'vs_pmap_erase',
+    PM + '::erase': {'expr': 'vs_pmap_erase_any($this, $0)'},
+    PM + '::emplace': {'expr': 'vs_pmap_insert($this, $0)'}, PM + '::try_emplace': {'expr': 'vs_pmap_insert($this, $0)'}, PM + '::insert_or_assign': {'expr': 'vs_pmap_insert($this, $0)'},
     PM + '::insert': {'expr': '((void)($0), vs_pmap_insert($this, g_ins_fd))'},
     'make_pair': {'expr': '((void)(g_ins_fd = ($0)), (struct vs_opaque){0})'},
     WM + '::erase': 'vs_wmap1_erase',
